@@ -674,6 +674,7 @@ impl Tcp2 {
             keep_alive: self.cfg.keep_alive_ms.is_some() || self.ka_set[side],
             expect_isn: self.cfg.isn.map(|i| i[side]),
             window_clamped_by_device: self.cfg.burst.is_some(),
+            strict_latest_window: false,
         };
         let v = self.mon[side].check_emit(f, &ctx);
         self.pending.extend(v);
